@@ -1226,6 +1226,9 @@ func countC10Case(c *vlib.Ctx, cs C10Case, out *c10Outcome) {
 			}
 		case "odc":
 			c.Count("odc_error_steps", 1)
+			if s.FailBody && !(len(s.Fail) > 0 && strings.HasPrefix(s.Fail[0], "leave_RUNNING")) {
+				c.Count("real_stop_activity_tasks_failed", 1) // the handler's real STOP reached its task command
+			}
 			if len(s.Fail) > 0 && (len(s.Fail) > 1 || s.FailBody || strings.HasPrefix(s.Fail[0], "leave_RUNNING")) {
 				c.Count("odc_error_steps_both_transitions_cancelled", 1)
 			}
